@@ -10,6 +10,7 @@
 -/
 import AttrsModel.Proofs.C14Final
 import AttrsModel.Proofs.C14Inherit
+import AttrsModel.Proofs.SrcFuncs
 
 namespace Attrs.C14
 
@@ -572,5 +573,30 @@ example :
 
 /-- an error case: `order=True, eq=False` -/
 example : (model { k8Witness with fEq := .f, fOrder := .t, body := [] }).err = some "valueError" := by decide
+
+/-! ### T1b: `_determine_whether_to_implement` as written in /repo's source on this run -/
+
+/-- **C14_source_whether_to_implement**: the function translated from the current source
+    (`Gen.determine_whether_to_implement`, regenerated on every run) computes the model's `determine` — the
+    function `C14_flag_obeyed` / `C14_autodetect` are about — for every class dict, flag, `auto_detect`, tuple of
+    dunder names of any length and default, where `_has_own_attribute` is membership in the class dict. -/
+theorem C14_source_whether_to_implement (env : Py.Env) (ext : Py.Ext) (cls : Py.PV) (cd : Dict)
+    (hext : ∀ d, ext "_has_own_attribute" [cls, Py.vStr d] = Py.vBool (hasOwn cd d))
+    (flag : Tri) (autoDetect : Bool) (dunders : List String) (dflt : Bool) :
+    Gen.determine_whether_to_implement env ext cls (Src.embTri flag) (Py.vBool autoDetect)
+        (Py.mkTup (dunders.map Py.vStr)) (Py.vBool dflt) = .ok (Py.vBool (determine cd flag autoDetect dunders dflt)) :=
+  Src.whether_to_implement env ext cls cd hext flag autoDetect dunders dflt
+
+/-- the hypothesis of `C14_source_whether_to_implement` is satisfiable (an `ext` that reads a concrete class dict) -/
+example : ∃ ext : Py.Ext, ∀ d, ext "_has_own_attribute" [Py.vObj 7, Py.vStr d] =
+    Py.vBool (hasOwn [("__repr__", Slot.user)] d) :=
+  ⟨fun _ args => match args with
+    | [_, .a (.str d)] => Py.vBool (hasOwn [("__repr__", Slot.user)] d)
+    | _ => Py.vNone, fun _ => rfl⟩
+
+/-- **C14_source_whether_to_implement_total**: the translated function never raises, whatever it is given -/
+theorem C14_source_whether_to_implement_total (env : Py.Env) (ext : Py.Ext) (cls flag ad ds dflt : Py.PV) :
+    ∃ v, Gen.determine_whether_to_implement env ext cls flag ad ds dflt = .ok v :=
+  Src.whether_to_implement_total env ext cls flag ad ds dflt
 
 end Attrs.C14
